@@ -7,7 +7,10 @@ HERE = os.path.dirname(os.path.dirname(os.path.abspath(__file__)))
 props = [json.loads(l) for l in open(os.path.join(HERE, "properties.jsonl"))]
 
 # per property: (engine, level category, technique, level text, level note, design_ref)
-META = json.load(open(os.path.join(HERE, "manifest_meta.json")))
+META = {}
+for fn in sorted(os.listdir(os.path.join(HERE, "meta"))):
+    if fn.endswith(".json"):
+        META[fn[:-5]] = json.load(open(os.path.join(HERE, "meta", fn)))
 
 checks = []
 na = []
